@@ -7,6 +7,10 @@
 #include <errno.h>
 #include "qlibc.h"
 #include "vfc.h"
+/* the print helpers (debug()) run on real contents now and then: C11 covers what they read */
+static FILE *DEVNULL; static unsigned long DBGCTR;
+#define DEBUG_NOW() (((++DBGCTR) % 61) == 0 && (DEVNULL || (DEVNULL = fopen("/dev/null", "w"))))
+
 
 static rng_t R;
 static int P;
@@ -38,7 +42,11 @@ static void gen_elem(void) {
     if (c) { EBUF[0] = (unsigned char)valctr; if (ES > 1) EBUF[1] = (unsigned char)(valctr >> 8); }
 }
 
+
+/* optional out-parameters are NULL in one call out of four; the variable is preset to what the callee would have stored */
+static size_t *optout(size_t *p, size_t expect) { if (rng_chance(&R, 1, 4)) { *p = expect; vf_count("calls_with_null_out_parameter", 1); return NULL; } return p; }
 static void vec_check(void) {
+    if (DEBUG_NOW()) { V->debug(V, DEVNULL); vf_count("debug_prints", 1); }
     vf_count("state_compares", 1);
     if (V->size(V) != (size_t)MN) { judge("C10", "size", "size()=%zu model=%d", V->size(V), MN); return; }
     if (V->objsize != ES) { judge("C10", "objsize", "element size changed from %zu to %zu", ES, V->objsize); return; }
@@ -132,7 +140,7 @@ static void v_resize(size_t k) {
 static void v_toarray(void) {
     size_t cnt = 999; errno = 0;
     vf_log("toarray n=%d", MN);
-    void *a = V->toarray(V, &cnt);
+    void *a = V->toarray(V, optout(&cnt, (size_t)MN));
     if (MN == 0) { if (a) judge("C10", "toarray-empty", "toarray on empty returned data"); else if (cnt != 0 || errno != ENOENT) judge("C10", "toarray-empty", "size=%zu errno=%d", cnt, errno); }
     else if (!a) judge("C10", "toarray-null", "toarray returned NULL for %d elements", MN);
     else if (cnt != (size_t)MN || memcmp(a, M, (size_t)MN * ES)) judge("C10", "toarray-content", "toarray count %zu (model %d) or bytes differ", cnt, MN);
